@@ -13,6 +13,10 @@ DEEP = [  # (name, prefix, unit, suffix_unit) structured deep-nesting inputs
     ('tuple-unclosed', 'fn f() { ', '#(', ''),
     ('lambda-unclosed', 'fn f() { ', 'fn() { ', ''),
     ('neg-prefix', 'fn f() { ', '- ', ''),
+    ('bang-prefix', 'fn f() { ', '! ', ''),
+    ('pattern-neg', 'fn f() { let ', '- ', ''),
+    ('pattern-concat', 'fn f() { let ', '"a" <> ', ''),
+    ('type-fn-ret', 'const c: ', 'fn() -> ', ''),
     ('pattern-list-unclosed', 'fn f() { let ', '[', ''),
     ('pattern-tuple-unclosed', 'fn f() { let ', '#(', ''),
     ('type-tuple-unclosed', 'const c: ', '#(', ''),
@@ -103,7 +107,7 @@ def enumerate_inputs(k, budget_s, seed=0, repo=REPO):
     return None, 0
 
 
-def search(k, budget_s, deep_ns=(150, 400, 3000), seed=0, repo=REPO):
+def search(k, budget_s, deep_ns=(150, 400, 3000, 120000), seed=0, repo=REPO):
     """Witness search: deep-nesting inputs first, then token-class enumeration.
     -> witness dict or None"""
     for n in deep_ns:
